@@ -154,6 +154,12 @@ def time_newticker(ex, g, fid, args):
     return Ptr([[ch, None, False]], 0)
 
 
+@exact("(*time.Timer).Reset")
+def timer_reset(ex, g, fid, args):
+    ex.events.append(("timer-reset", args[1]))
+    return False
+
+
 @exact("(*time.Ticker).Stop", "(*time.Timer).Stop", "(*time.Ticker).Reset")
 def ticker_stop(ex, g, fid, args):
     return False if "Timer" in fid else None
@@ -252,10 +258,16 @@ def noise_read(ex, g, fid, args):
     if not fork_bool(ex):
         return Tup([Slice(None, 0, 0, 0), None, None, mkerr(ex, gostr("noise: read failed"))])
     st["n"] += 1
-    maxp = ex.opts.get("noise_payload_max", 3)
-    n = ex.choose([True] * (maxp + 1))
     from .builtins_ import go_append
-    payload = go_append(ex, out if out.arr is not None else Slice([], 0, 0, 0), [ex.havoc(8, "np") for _ in range(n)])
+    if st["n"] == 1:
+        # first NN message: the payload travels in clear after the ephemeral key (modelled with a
+        # zero-length key share), so the reader sees exactly the bytes that are on the wire
+        pl = list(slice_elems(args[2]))
+    else:
+        maxp = ex.opts.get("noise_payload_max", 3)
+        n = ex.choose([True] * (maxp + 1))
+        pl = [ex.havoc(8, "np") for _ in range(n)]
+    payload = go_append(ex, out if out.arr is not None else Slice([], 0, 0, 0), pl)
     cs1 = cs2 = None
     if st["n"] == 2:
         cs1 = new_cs(ex, fid, 1, st["id"] * 10 + 1)
@@ -333,13 +345,30 @@ def p2pke_marshal(ex, g, fid, args):
     return go_append(ex, out if out.arr is not None else Slice([], 0, 0, 0), [ex.havoc(8, "pb") for _ in range(2)])
 
 
+def synkey(vals):
+    return tuple(("s", v.get_id()) if is_sym(v) else v for v in vals)
+
+
 @pattern(r"^go\.brendoncarroll\.net/p2p/p/p2pke\.unmarshal$")
 def p2pke_unmarshal(ex, g, fid, args):
-    if not fork_bool(ex):
-        return mkerr(ex, gostr("proto: cannot parse"))
     x = args[1]          # proto.Message interface holding *InitHello / *RespHello / *InitDone
     p = x.val
     st = p.cont[p.idx]
+    # parsing is a function of the bytes: the same bytes parse to the same message (or error)
+    ck = ("pb", x.tid, synkey(slice_elems(args[0])))
+    hit = ex.fn_cache.get(ck)
+    if hit is not None:
+        if hit == "err":
+            return mkerr(ex, gostr("proto: cannot parse"))
+        for k, v in hit.items():
+            st[k] = Slice(list(v), 0, len(v), len(v)) if isinstance(v, list) else v
+        return None
+    if not fork_bool(ex):
+        ex.fn_cache[ck] = "err"
+        return mkerr(ex, gostr("proto: cannot parse"))
+    rec = {}
+    ex.fn_cache[ck] = rec
+    ex.fn_keep.append(args[0])
     t = ex.types[ex.types[x.tid]["elem"]]
     for k, f in enumerate(t["fields"]):
         if not f["name"][:1].isupper():
@@ -351,8 +380,10 @@ def p2pke_unmarshal(ex, g, fid, args):
             else:
                 n = 2
             st[k] = hbytes(ex, n, "pf")
+            rec[k] = list(st[k].arr)
         elif ft["kind"] == "int":
             st[k] = ex.havoc(ft["bits"], "pv")
+            rec[k] = st[k]
     return None
 
 
@@ -367,7 +398,17 @@ def harness_global(ex, suffix):
 def x509_parse(ex, g, fid, args):
     rt = ex.types[ex.funcs[fid]["sig"]]["results"]
     zero = ex.zero(rt[0])
+    ck = ("x509", synkey(slice_elems(args[0])))
+    hit = ex.fn_cache.get(ck)
+    if hit is not None:
+        if hit == "err":
+            return Tup([zero, mkerr(ex, gostr("asn1: syntax error"))])
+        key = copy_struct(zero)
+        key[0] = copy_struct(hit[0])
+        key[1] = Slice(list(hit[1]), 0, 1, 1)
+        return Tup([key, None])
     if not fork_bool(ex):
+        ex.fn_cache[ck] = "err"
         return Tup([zero, mkerr(ex, gostr("asn1: syntax error"))])
     algo = harness_global(ex, ".vAlgo")
     if algo is None:
@@ -377,6 +418,8 @@ def x509_parse(ex, g, fid, args):
     key = copy_struct(zero)
     key[0] = algo
     key[1] = hbytes(ex, 1, "pk")
+    ex.fn_cache[ck] = (copy_struct(algo), list(key[1].arr))
+    ex.fn_keep.append(args[0])
     return Tup([key, None])
 
 
@@ -402,6 +445,8 @@ def install_p2pke(ex):
     ex.hs = {}
     ex.cs_tags = {}
     ex.hash_tables = {}
+    ex.fn_cache = {}
+    ex.fn_keep = []
 
 
 _old_install = Executor.install_env
